@@ -40,12 +40,14 @@ type respScript struct {
 	DelayRest int             // ms before the rest of the body
 	DelayTrl  int             // ms before the trailer section
 	OneByte   bool            // first body write is a single byte
+	SameName  string          // non-empty: this declared trailer name is also used as a header field name
 	Class     string
 	body      []byte
 }
 
-var c03Names = []string{"Content-Type", "Set-Cookie", "Vary", "Link", "Warning", "X-Custom", "ETag", "Cache-Control", "Location", "X-a_B.c", "Server", "Date", "Content-Language", "Accept-Ranges", "WWW-Authenticate", "X-Frame-Options", "Last-Modified"}
-var c03TrailerNames = []string{"X-Checksum", "Server-Timing", "X-Trailer-A", "X-Trailer-B", "Digest", "X-Long-Trailer-Name-For-Good-Measure", "Grpc-Status", "X-T"}
+var c03Names = []string{"Proxy-Status", "Upgrade-Insecure-Requests", "Connection-Id", "Keep-Alive-Hint", "Trailer-Info", "Te-Extension", "Transfer-Encoding-Hint", "Proxy-Features",
+	"Content-Type", "Set-Cookie", "Vary", "Link", "Warning", "X-Custom", "ETag", "Cache-Control", "Location", "X-a_B.c", "Server", "Date", "Content-Language", "Accept-Ranges", "WWW-Authenticate", "X-Frame-Options", "Last-Modified"}
+var c03TrailerNames = []string{"Proxy-Trace", "X-Checksum", "Server-Timing", "X-Trailer-A", "X-Trailer-B", "Digest", "X-Long-Trailer-Name-For-Good-Measure", "Grpc-Status", "X-T"}
 var c03BodySizes = []int{0, 1, 2, 100, 4095, 4096, 4097, 32767, 32768, 32769, 100000}
 
 func genResp(rng *rand.Rand, tok string, status int, big bool) *respScript {
@@ -152,6 +154,23 @@ func genResp(rng *rand.Rand, tok string, status int, big bool) *respScript {
 		}
 		for i := 0; i < nu; i++ {
 			s.Undecl = append(s.Undecl, rawhttp.Field{Name: c03TrailerNames[names[nd+i]], Value: fmt.Sprintf("u%d-%s", i, tok)})
+		}
+		if nd > 0 && rng.Intn(25) == 0 {
+			// legal but unusual: a field name used both in the header block and as a (declared) trailer
+			for _, f := range s.Fields {
+				switch strings.ToLower(f.Name) {
+				case "x-custom", "proxy-status", "link", "warning", "x-a_b.c":
+					s.SameName = f.Name
+				}
+			}
+			if s.SameName != "" {
+				old := s.Declared[0].Name
+				for i := range s.Declared {
+					if s.Declared[i].Name == old {
+						s.Declared[i].Name = s.SameName
+					}
+				}
+			}
 		}
 	}
 	switch rng.Intn(6) {
@@ -371,6 +390,11 @@ func compareResponse(s *respScript, got *rawhttp.Message) (string, []string) {
 			}
 			if len(s.Interim) > 0 && got.Status != s.Status {
 				k = "interim-1xx:final-status-lost"
+			}
+			if s.SameName != "" && (kind == "" || kind == "trailer-altered:same-name-as-header") {
+				// the header values of the shared name are repeated in the trailer section; when that makes the
+				// section exceed net/http's 4 KiB trailer look-ahead the whole section is dropped: one finding
+				k = "trailer-altered:same-name-as-header"
 			}
 			add(k, fmt.Sprintf("trailer %q: got %q want %q", n, gotT[n], wantT[n]))
 		}
@@ -636,6 +660,16 @@ func c03H2(r *core.Run, md *fakes.Metadata, serverBin, agentBin string) {
 	for i := 0; i < n; i++ {
 		st := 200 + rng.Intn(400)
 		s := genResp(rng, fmt.Sprintf("s%dh2n%d", r.Seed, i), st, false)
+		if s.SameName != "" {
+			// the h2c backend is scripted at handler level, where a declared trailer name that already has a
+			// header value is not expressible unambiguously: this input class is exercised on the raw HTTP/1.1 backend only
+			for i := range s.Declared {
+				if s.Declared[i].Name == s.SameName {
+					s.Declared[i].Name = "X-Renamed-Trailer"
+				}
+			}
+			s.SameName = ""
+		}
 		s.Hop = nil        // hop-by-hop fields do not exist in HTTP/2
 		s.Framing = "h2"   // framing is not a dimension here
 		if s.Method == "HEAD" {
